@@ -72,6 +72,12 @@ func DrawProfile(property, tier string, r *PRNG) *Profile {
 	if thorough && r.Chance(0.3) {
 		p.WideW = 1.5
 	}
+	if thorough && r.Chance(0.25) {
+		// deeper bounds in the thorough tier: long histories
+		p.MaxBlocks = r.Range(60, 160)
+		p.MaxTxs = r.Range(300, 900)
+		p.Name += "/long"
+	}
 	// swarm: switch a random subset of non-core kinds off
 	for _, k := range sortedKeys(p.Weights) {
 		if k[0] == '_' {
